@@ -255,6 +255,18 @@ class Func(object):
                 if ini.get('e') is not None:
                     ini['e'] = self._adopt(ini['e'], None)
                 self.inits.append(ini)
+            if _META == 'rename':
+                # checker self-test: every local variable and parameter gets another name.  A rule whose verdict changes looks variables up by name instead of by what they hold.
+                local = set(p_['d'] for p_ in self.params if p_.get('d') is not None)
+                for n in self.nodes.values():
+                    if n['k'] == 'VarDecl' and n.get('d') is not None:
+                        local.add(n['d'])
+                for p_ in self.params:
+                    if p_.get('d') is not None:
+                        p_['n'] = 'zz%d' % p_['d']
+                for n in self.nodes.values():
+                    if n.get('d') in local and n['k'] in ('VarDecl', 'DeclRefExpr', 'ParmVarDecl') and n.get('n') is not None:
+                        n['n'] = 'zz%d' % n['d']
             cfg = rec.get('cfg')
             if cfg:
                 for bd in cfg['blocks']:
